@@ -111,6 +111,11 @@ def run(R):
                     okn = any(vals == [radt['Empty']] for s, vals, tm in eb.edge_guards(bb))
         R.check(okn, 'C12.R2', 'empty-body-yields-nothing', site(eb), 'ResponseBodyKind::Empty -> Ready(None)')
 
+    # the rejecting status reaches the caller whole: Status::into_http -> to_header_map -> add_header (shared writer)
+    with R.guard('C12.R2', 'status-writer'):
+        import C04
+        C04.check_status_writer(R, tonic, 'C12.R2')
+
     # ---------------------------------------------------------------- R5 type-level witnesses (E4)
     R.describe('C12.R5', 'compile-fail witnesses: an interceptor is a function of Request<()> — it cannot name, read or replace the request body; '
                          'Request::into_http / SanitizeHeaders (the un-sanitised conversion used for the interceptor output) are not reachable from outside tonic')
